@@ -515,7 +515,8 @@ def r11e(model: Model, rr: RuleResult):
         unz = [st for st in walk_body(fi) if isinstance(st, ast.Assign) and "zip(*" in norm(st.value)]
         if unz and isinstance(unz[0].targets[0], ast.Tuple) and len(unz[0].targets[0].elts) == 2:
             a, b = [norm(x) for x in unz[0].targets[0].elts]
-            sa = [st for st in walk_body(fi) if isinstance(st, ast.Assign) and norm(st.targets[0]) == f"{g}[:]"]
+            un_at = cfg.node_for(unz[0])
+            sa = [st for st in walk_body(fi) if isinstance(st, ast.Assign) and norm(st.targets[0]) == f"{g}[:]" and cfg.path_exists(un_at, cfg.node_for(st))]
             sb = [st for st in ast.walk(fi.node) if isinstance(st, ast.Assign) and norm(st.targets[0]) == f"{pl}[:]"]
             ok = sb and norm(sb[0].value) == b and sa and a in {norm(d.value) if d.value is not None else a for d in cfg.reaching(cfg.node_for(sa[0]), norm(sa[0].value))} | {norm(sa[0].value)}
             if ok:
